@@ -304,6 +304,15 @@ func one(k *run.K, t model.Tree, o opts) {
 	}
 	k.Check("encode-closed-world", true, "")
 	k.In("twkb", b)
+	{
+		keep := append([]byte(nil), b...)
+		k.Lib("nopanic", func() {
+			_, _ = geom.MarshalTWKB(g, o.pXY, o.list()...)
+			_, _ = geom.MarshalTWKB(geom.NewLineStringXY(1, 2, 3, 4).AsGeometry(), 1, geom.TWKBSizeHeader(), geom.TWKBBoundingBoxHeader())
+			_, _ = geom.MarshalTWKB(geom.NewPointXY(5, 6).AsGeometry(), 0)
+		})
+		k.Check("encode-closed-world", bytes.Equal(b, keep), "bytes returned by MarshalTWKB changed after later MarshalTWKB calls")
+	}
 	// decode own output
 	var back geom.Geometry
 	var derr error
